@@ -309,7 +309,8 @@ def evalSizeAttr (c : Ctx) (name value : Str) : Except Err Str :=
           | some len => len.adjust v
           | none => v
         pure (fstr v)
-      | _ => pure value
+      | .ok none => throw Err.missingBBox
+      | .error er => throw er
     | (none, _) => pure value
 
 /-- `extract_dx_dy` -/
@@ -365,7 +366,8 @@ def evalPosAttr (c : Ctx) (e : Elem) (name value : Str) : Except Err Str :=
     | (some el, remain) =>
       match c.bb el with
       | .ok (some bbox) => e.posAttrHelper remain bbox attrSs
-      | _ => pure value
+      | .ok none => throw Err.missingBBox
+      | .error er => throw er
     | (none, _) => pure value
 
 /-- `eval_rel_attributes`: over a snapshot of the attributes, updating in place -/
